@@ -133,6 +133,29 @@ def _owner_of(func, e, fields):
     return "?children"
 
 
+def is_new_unused_api(ctx, func):
+    """a public method that does not exist at the pinned commit and that nothing else in the package uses: new API, not
+    part of what the property is stated for (it is judged as soon as an existing member calls it)"""
+    from .newoptions import load_signatures
+    pinned = load_signatures()
+    top = func
+    while getattr(top, "outer", None) is not None:
+        top = top.outer
+    if top.cls is None or top.srcname.startswith("_") or top.kind != "method":
+        return False
+    if "%s.%s" % (top.cls.name, top.srcname) in pinned.get(top.module.relpath, {}):
+        return False
+    for g in ctx.p.all_funcs:
+        if g is top:
+            continue
+        for x in walk_own(g.node):
+            if isinstance(x, ast.Attribute) and x.attr == top.srcname:
+                return False
+            if isinstance(x, ast.Constant) and x.value == top.srcname:
+                return False
+    return True
+
+
 def rule_W1(ctx):
     fields = link_fields(ctx.p)
     sites = link_write_sites(ctx.p)
@@ -145,6 +168,11 @@ def rule_W1(ctx):
         if ok:
             per[owner] = per.get(owner, 0) + 1
             ctx.inst("W1", func, node, "link write (%s) inside the owning mixin's writer" % how)
+        elif func.cls is not None and func.cls.name == owner and is_new_unused_api(ctx, func):
+            # a new public method that edits the links directly: whether it keeps both views paired is a new obligation that the
+            # rules for the existing entry points do not cover
+            ctx.extra.setdefault("undecided", []).append("W1: the new public method %s writes the link field %s directly (%s): that it keeps the "
+                                                         "parent and children views paired is not followed" % (func.qual, field, how))
         else:
             ctx.viol("W1", func, node, "link field %s written (%s) outside the private machinery of %s (its name-mangled methods "
                      "and the parent/children accessors): the parent/children views can be changed without the paired update" % (
@@ -398,28 +426,8 @@ def rule_H6(ctx, hook_event_sites):
     the default implementations are empty"""
     n = 0
     allowed = set(hook_event_sites)  # ids of ast statements
-    from .newoptions import load_signatures
-    pinned = load_signatures()
-
     def new_api(func):
-        """a public method that does not exist at the pinned commit and that nothing else in the package uses: new API, not
-        part of what the property is stated for (it is judged as soon as an existing member calls it)"""
-        top = func
-        while getattr(top, "outer", None) is not None:
-            top = top.outer
-        if top.cls is None or top.srcname.startswith("_") or top.kind != "method":
-            return False
-        if "%s.%s" % (top.cls.name, top.srcname) in pinned.get(top.module.relpath, {}):
-            return False
-        for g in ctx.p.all_funcs:
-            if g is top:
-                continue
-            for x in walk_own(g.node):
-                if isinstance(x, ast.Attribute) and x.attr == top.srcname:
-                    return False
-                if isinstance(x, ast.Constant) and x.value == top.srcname:
-                    return False
-        return True
+        return is_new_unused_api(ctx, func)
     for func in ctx.p.all_funcs:
         for node in walk_own(func.node):
             if isinstance(node, ast.Call) and isinstance(node.func, ast.Attribute) and node.func.attr in T.HOOKS:
